@@ -145,7 +145,7 @@ impl Prop for C09 {
             for f in fs.iter() {
                 vectors.push(vec![f.clone(); n]);
             }
-            let k = if ctx.tier == Tier::Thorough { 2 } else if n <= 3 { 2 } else { 1 };
+            let k = 2; // both tiers: every vector within two deviations, all arities
             let sizes = vec![fs.len() + 1; n];
             for dv in deviations(&sizes, k) {
                 vectors.push(dv.iter().enumerate().map(|(i, &a)| if a == 0 { default[i].clone() } else { fs[a - 1].clone() }).collect());
@@ -195,7 +195,7 @@ impl Prop for C09 {
         ev.set("hash_to_field_inputs", json!(h2f.len()));
         ev.set("constants_compared", json!(consts));
         ev.set("rule", json!("Poseidon: for each arity n=1..8 every vector within k deviations of [1..n] over F* (k=2 for n<=3 quick / all n thorough, else 1), all-equal F* vectors, seeded randoms; deduplicated; each through typed, byte-level and FFI entry points (typed twice), on 16 threads. Constants: every round constant and MDS entry for t=2..9 against the reference Grain generation. hash_to_field: every length 0..=300 (600 thorough) x {00,ff,counter,random} + long inputs, same entry points. distinct_nontrivial counts distinct inputs (+8 constant sets), not calls."));
-        ev.set("deviation_bound", json!(ctx.tier.pick("k<=2 for n<=3, k<=1 otherwise", "k<=2")));
+        ev.set("deviation_bound", json!("k<=2 for every arity 1..8"));
         ev.set("exhaustive", json!(true));
         ev.sample(json!({"kind":"poseidon","inputs":["1","2"]}));
         ev.sample(json!({"kind":"poseidon","inputs": vectors.last().unwrap().iter().map(sdec).collect::<Vec<_>>()}));
